@@ -32,13 +32,14 @@ type scriptedEndpoint struct {
 	opens   atomic.Int64
 	downs   atomic.Int64
 	pending atomic.Int64
+	terr    chan error
 }
 
 func newScriptedEndpoint(name string) *scriptedEndpoint {
-	return &scriptedEndpoint{name: name, conns: make(chan net.Conn, 256), down: make(chan struct{})}
+	return &scriptedEndpoint{name: name, conns: make(chan net.Conn, 256), down: make(chan struct{}), terr: make(chan error, 1)}
 }
 
-func (e *scriptedEndpoint) TransportErrors() <-chan error { return nil }
+func (e *scriptedEndpoint) TransportErrors() <-chan error { return e.terr }
 
 func (e *scriptedEndpoint) Open() (net.Conn, error) {
 	// Hand out queued connections first, so that a Shutdown racing with a
@@ -70,21 +71,22 @@ func (e *scriptedEndpoint) Shutdown() error {
 // Session.EnsureValid).
 type scriptedHandler struct {
 	mu        sync.Mutex
-	endpoints map[string]*scriptedEndpoint // by URL path
+	endpoints map[string][]*scriptedEndpoint // by URL path: one endpoint per (re)connection, in order
 	connects  map[string]int
 }
 
-var c33handler = &scriptedHandler{endpoints: map[string]*scriptedEndpoint{}, connects: map[string]int{}}
+var c33handler = &scriptedHandler{endpoints: map[string][]*scriptedEndpoint{}, connects: map[string]int{}}
 
 func (h *scriptedHandler) Connect(_ context.Context, _ *logging.Logger, url *urlpkg.URL, _ string, _ string, _ forwarding.Version, _ *forwarding.Configuration, source bool) (forwarding.Endpoint, error) {
 	h.mu.Lock()
 	defer h.mu.Unlock()
+	k := h.connects[url.Path]
 	h.connects[url.Path]++
-	e, ok := h.endpoints[url.Path]
-	if !ok || h.connects[url.Path] > 1 {
+	es := h.endpoints[url.Path]
+	if k >= len(es) {
 		return nil, errors.New("no scripted endpoint (left) for " + url.Path)
 	}
-	return e, nil
+	return es[k], nil
 }
 
 func init() {
@@ -104,7 +106,7 @@ func runManagerCase(r *vk.Run, mgr *forwarding.Manager, mc mgrCase) (sig string,
 	dstPath := fmt.Sprintf("tcp:localhost:%d", 20001+2*mc.Index)
 	src, dst := newScriptedEndpoint("source"), newScriptedEndpoint("destination")
 	c33handler.mu.Lock()
-	c33handler.endpoints[srcPath], c33handler.endpoints[dstPath] = src, dst
+	c33handler.endpoints[srcPath], c33handler.endpoints[dstPath] = []*scriptedEndpoint{src}, []*scriptedEndpoint{dst}
 	c33handler.mu.Unlock()
 
 	fail := func(kind, what string, extra map[string]any) {
@@ -351,9 +353,18 @@ func c33Manager(r *vk.Run) {
 		r.Inconclusive("manager-create-failed")
 		return
 	}
-	n := r.Pick(16, 300)
+	n := r.Pick(12, 300)
 	rng := r.Rand("manager")
-	cases := make(chan mgrCase, n)
+	nfd := r.Pick(2, 12)
+	cases := make(chan mgrCase, n+nfd)
+	for i := 0; i < nfd; i++ {
+		// sessions whose connections all stream several MiB in both directions at once
+		mc := mgrCase{Index: 5000 + i}
+		for k := 0; k < 2+i%2; k++ {
+			mc.Links = append(mc.Links, fullDuplexLink(rng, r.Quick()))
+		}
+		cases <- mc
+	}
 	for i := 0; i < n; i++ {
 		mc := mgrCase{Index: i}
 		nl := 1 + rng.Intn(64)
@@ -414,6 +425,9 @@ func c33Manager(r *vk.Run) {
 		}()
 	}
 	wg.Wait()
+	if hangs.Load() == 0 {
+		c33Reconnects(r, mgr)
+	}
 	done := make(chan struct{})
 	go func() { mgr.Shutdown(); close(done) }()
 	if c33health.waitDone(done, hangBound) == "hang" {
